@@ -140,7 +140,7 @@ namespace c15
         // R e_j = s_j e_{p[j]}
         int psign = 1; for(int a = 0; a < d_; ++a) for(int b = a + 1; b < d_; ++b) if(p[a] > p[b]) psign = -psign;
         int ssign = 1; for(int j = 0; j < d_; ++j) if((sg >> j) & 1) ssign = -ssign;
-        if(psign * ssign != 1) continue;
+        if(psign * ssign != 1 && d_ != 1) continue;   // 1D: the reversed interval (x_v0 > x_v1) is a legitimate cell, the trafo works with |J|
         std::array<int, (1 << d_)> sig;
         for(int k = 0; k < (1 << d_); ++k)
         {
@@ -191,6 +191,7 @@ namespace c15
     bool allow_jitter = true;
     bool allow_affine = true;
     bool allow_sym = true;
+    bool allow_reversed_1d = false;   // 1D only: intervals stored right-to-left (negative 1D Jacobian); opt-in per check
     bool allow_scale = true;
     int min_cells = 1;
   };
@@ -244,7 +245,7 @@ namespace c15
     // --- re-orientation: an orientation preserving symmetry of the reference cell per cell
     const auto& syms = Syms<Shape_>::get();
     bool nonid = false;
-    if(o.allow_sym && syms.size() > 1)
+    if(o.allow_sym && syms.size() > 1 && (dim > 1 || o.allow_reversed_1d))
     {
       int mode = t.pick({3, 5, 2}); // 0 none, 1 independent per cell, 2 the same for all cells
       vf::J sj = vf::J::arr();
@@ -340,7 +341,8 @@ namespace c15
       {
         LD xi[3]; for(int j = 0; j < dim; ++j) xi[j] = (k < R::nv ? R::vc(k, j) : R::centre(j));
         LD J[dim][dim]; gq.jac(xi, J);
-        if(!(CellGeo<Shape_>::det(J) > 0)) throw vf::Discard{"generator produced a non-positive Jacobian"};
+        if(dim == 1) { if(!(CellGeo<Shape_>::det(J) != 0)) throw vf::Discard{"generator produced a degenerate interval"}; }   // reversed intervals are legitimate
+        else if(!(CellGeo<Shape_>::det(J) > 0)) throw vf::Discard{"generator produced a non-positive Jacobian"};
       }
     }
     if(nv <= 12) { vf::J vj = vf::J::arr(); for(auto& p : m.vtx) { vf::J q = vf::J::arr(); for(int i = 0; i < dim; ++i) q.add(p[i]); vj.add(q); } d.set("vtx", vj); }
